@@ -2,11 +2,13 @@ package qexpr
 
 import (
 	"fmt"
+	"math/big"
 	"sort"
 	"strings"
 	"testing"
 
 	"github.com/apmckinlay/gsuneido/core"
+	"github.com/apmckinlay/gsuneido/core/types"
 	"pgregory.net/rapid"
 	"verifharness/internal/ev"
 	"verifharness/internal/gen"
@@ -77,16 +79,28 @@ func TestC25(t *testing.T) {
 		}
 		depth := 1 + gen.Weighted(t, "depth", []int{2, 4, 3})
 		var e *node
-		if gen.Chance(t, "boolTop", 70) {
+		arith := gen.Chance(t, "arith", 23)
+		switch {
+		case arith: // arithmetic chains over numeric columns
+			for _, c := range cols {
+				g.colKind[c] = kNum
+			}
+			e = g.arith()
+			rec.Label("gen_arithmetic")
+		case gen.Chance(t, "boolTop", 70):
 			e = g.expr(kBool, depth)
-		} else {
+		default:
 			e = g.expr(kAny, depth)
 		}
 		src := e.String()
 		rows := make([][]*val, rowsPerExpr)
 		for i := range rows {
 			for _, c := range cols {
-				rows[i] = append(rows[i], g.rowValue(c))
+				if arith {
+					rows[i] = append(rows[i], g.arithRowValue(c))
+				} else {
+					rows[i] = append(rows[i], g.rowValue(c))
+				}
 			}
 		}
 		checkExpr(t, rec, e, src, rows)
@@ -178,6 +192,9 @@ func checkExpr(t *rapid.T, rec *ev.Rec, e *node, src string, rows [][]*val) {
 			}
 		}
 
+		if divisorChainInexact(w, e) {
+			rec.Label("muldiv_2+_nonconst_divisors_inexact_first_quotient")
+		}
 		rec.Case(nt, canon.String())
 		rec.Label("lang_" + resLabel(lr))
 
@@ -332,4 +349,94 @@ func judgeWhere(t *rapid.T, rec *ev.Rec, termFns []langFn, args []core.Value, wo
 	default:
 		t.Fatalf("where: %d rows from a one row table%s", wo.n, info())
 	}
+}
+
+// ratOf gives the exact value of a finite number.
+func ratOf(v core.Value) (*big.Rat, bool) {
+	if d, ok := v.(core.SuDnum); ok {
+		if d.IsInf() {
+			return nil, false
+		}
+		return gen.RatOf(d.Dnum), true
+	}
+	if v.Type() != types.Number {
+		return nil, false
+	}
+	n, ok := v.IfInt()
+	if !ok {
+		return nil, false
+	}
+	return new(big.Rat).SetInt64(int64(n)), true
+}
+
+// exact16: r is a decimal with at most 16 significant digits.
+func exact16(r *big.Rat) bool {
+	den := new(big.Int).Set(r.Denom())
+	two, five, zero := big.NewInt(2), big.NewInt(5), new(big.Int)
+	m := new(big.Int)
+	n2, n5 := 0, 0
+	for m.Mod(den, two).Cmp(zero) == 0 {
+		den.Quo(den, two)
+		n2++
+	}
+	for m.Mod(den, five).Cmp(zero) == 0 {
+		den.Quo(den, five)
+		n5++
+	}
+	if den.Cmp(big.NewInt(1)) != 0 {
+		return false
+	}
+	// digits of the numerator over 10^max(n2,n5)
+	k := max(n2, n5)
+	num := new(big.Int).Set(r.Num())
+	for i := n2; i < k; i++ {
+		num.Mul(num, two)
+	}
+	for i := n5; i < k; i++ {
+		num.Mul(num, five)
+	}
+	str := strings.TrimRight(strings.TrimLeft(num.String(), "-"), "0")
+	return len(str) <= 16
+}
+
+// divisorChainInexact: the expression has a * / chain with >= 2 divisors that
+// are not constants, all operands are finite non-zero numbers on this row, and
+// the quotient by the first divisor alone is not a 16 digit decimal (so
+// dividing in turn rounds twice where a / (b * c) rounds once).
+func divisorChainInexact(w *walkT, e *node) bool {
+	found := false
+	e.walk(func(n *node) {
+		if found || n.op != "chain*" {
+			return
+		}
+		var divs []*node
+		num := new(big.Rat).SetInt64(1)
+		ok := true
+		for i, k := range n.kids {
+			v, vok := w.compiled(k)
+			if !vok {
+				ok = false
+				break
+			}
+			r, rok := ratOf(v)
+			if !rok || r.Sign() == 0 {
+				ok = false
+				break
+			}
+			if i > 0 && n.signs[i-1] == '/' {
+				if k.hasCol() {
+					divs = append(divs, k)
+				}
+				if len(divs) == 1 && k.hasCol() {
+					num.Quo(num, r)
+				}
+			} else {
+				num.Mul(num, r)
+			}
+		}
+		if ok && len(divs) >= 2 && !exact16(num) {
+			found = true
+		}
+	})
+	return found
 }
